@@ -3,7 +3,7 @@
 // DESIGN.md §0 "Translation") and fails loudly outside it: a failure is the
 // tie "T1" being broken, never silently papered over.
 //
-// usage: translate -repo /repo -targets targets.json -out lean/Influx/Generated [-only Module]
+// usage: translate -repo /repo -targets targets/ -out lean/Influx/Generated [-only Module]
 //
 // Item kinds in targets.json:
 //
@@ -837,19 +837,26 @@ func genModule(repo string, m Module) (out string, err error) {
 
 func main() {
 	repo := flag.String("repo", "/repo", "influxdb working tree")
-	targets := flag.String("targets", "targets.json", "targets file")
+	targets := flag.String("targets", "targets", "directory of target files (*.json)")
 	out := flag.String("out", "", "output directory (lean/Influx/Generated)")
 	only := flag.String("only", "", "comma-separated module names to regenerate (default all)")
 	flag.Parse()
-	raw, err := os.ReadFile(*targets)
-	if err != nil {
-		fmt.Fprintln(os.Stderr, err)
-		os.Exit(2)
-	}
+	// -targets is a directory of *.json files, each a list of modules
+	files, _ := filepath.Glob(filepath.Join(*targets, "*.json"))
+	sort.Strings(files)
 	var mods []Module
-	if err := json.Unmarshal(raw, &mods); err != nil {
-		fmt.Fprintln(os.Stderr, "targets.json:", err)
-		os.Exit(2)
+	for _, fn := range files {
+		raw, err := os.ReadFile(fn)
+		if err != nil {
+			fmt.Fprintln(os.Stderr, err)
+			os.Exit(2)
+		}
+		var ms []Module
+		if err := json.Unmarshal(raw, &ms); err != nil {
+			fmt.Fprintln(os.Stderr, fn+":", err)
+			os.Exit(2)
+		}
+		mods = append(mods, ms...)
 	}
 	want := map[string]bool{}
 	for _, o := range strings.Split(*only, ",") {
